@@ -16,7 +16,7 @@ func init() {
 			"D3 whiteouts invisible — ReadDir lists a child only if it is not a whiteout, Stat/Read/ReadAt/Seek of a whiteout node fail with ErrNotExist before touching the file; " +
 			"D4 the file-requirer restriction only removes nodes (no insertion) and only nodes the requirer rejects; D5 only sanctioned omissions — every tar entry read reaches the insertion into the views unless it is an escaping name, a '.'/'..' base name, already present in the newest view being filled, of an unsupported type, or its handler failed; in particular whiteouts are never filtered by the requirer; " +
 			"D6 views are built from immutable shared nodes (rule shared with C17-D4). " +
-			"Added in round 2: D7 chain-layer view trees are inserted into only by the guarded fill routine (and the root insert); D8 every tar entry passes populateEmptyDirectoryNodes before it is added to the views. NOT decided: overlay semantics as a whole (opaque whiteouts, which the code does not implement; order of entries within a layer; content/size/mode equality; equivalence with the squashed unpacking).",
+			"Added in round 2: D7 chain-layer view trees are inserted into only by the guarded fill routine (and the root insert); D8 every tar entry passes populateEmptyDirectoryNodes before it is added to the views. Added in round 3: an entry's handler runs only when the newest view has no node at its path; the requirer restriction prunes chainLayers[len-1]. NOT decided: overlay semantics as a whole (opaque whiteouts, which the code does not implement; order of entries within a layer; content/size/mode equality; equivalence with the squashed unpacking).",
 		Run: runC04,
 		Controls: []Mutant{
 			{Name: "overwrite-existing", File: "artifact/image/layerscanning/image/image.go", Old: "		if node := chainLayer.fileNodeTree.Get(virtualPath); node != nil {\n			// A newer version of the file already exists on a later chainLayer.\n			// Since we do not want to overwrite a later layer with information\n			// written in an earlier layer, skip this file.\n			continue\n		}\n", New: "", Rule: "D1-newest-wins", Site: "fillChainLayersWithFileNode"},
